@@ -54,6 +54,8 @@ type mutCase struct {
 	Seed     rc.Hex         `json:"seed,omitempty"`
 	Wire     rc.Hex         `json:"wire"`
 	Muts     []gen.Mutation `json:"mutations,omitempty"`
+	// HKey: key with which the seed (a hash envelope) was signed, so that VerifyHashEnvelope gets past the signature check
+	HKey *refcose.KeyMat `json:"hkey,omitempty"`
 }
 
 // seedFor draws a valid encoding of the given kind (peer encoder choices,
